@@ -64,6 +64,9 @@ def cases(seed, tier):
                 for t in absent[:rng.choice([0, 1, 2])]:
                     if rng.random() < 0.5 or not tops[t]['kids']:
                         items.append({'kind': 'top', 'top': t, 'tp': []})
+                        if tops[t]['kids'] and rng.random() < 0.35:
+                            # the root given whole AND one of its own nodes in the same list: the tree is stored whole
+                            items.append({'kind': 'top', 'top': t, 'tp': [rng.choice(tops[t]['kids'])['name']]})
                     else:
                         for kid in rng.sample(tops[t]['kids'], rng.choice([1, min(2, len(tops[t]['kids']))])):
                             items.append({'kind': 'top', 'top': t, 'tp': [kid['name']]})
@@ -150,6 +153,19 @@ def oracle(case, obs):
                     if got != want:
                         return {'key': 'tree-read-differs', 'what': where + ': tree read by its root name differs from its source'}
             continue
+        if o['raised'] and st.get('input') and st['input']['kind'] in ('list', 'tuple') and (prev_slot is None or prev_slot[0] == 'Absent' or st['mode'] in ('o', 'overwrite')):
+            # a list into a fresh file is refused only for the documented reasons: the same unrooted node twice, nodes of two
+            # different roots of one name, rooted items that are not direct children of their root
+            its = [it for it in st['input']['items'] if it['kind'] == 'top']
+            un = [it['top'] for it in its if tops[it['top']]['cls'] != 'Root']
+            rooted = [it for it in its if tops[it['top']]['cls'] == 'Root' and it['tp']]
+            by_name = {}
+            for it in rooted:
+                by_name.setdefault(tops[it['top']]['name'], set()).add(it['top'])
+            documented = len(set(un)) != len(un) or any(len(v) > 1 for v in by_name.values()) or any(len(it['tp']) != 1 for it in rooted) or \
+                st['mode'] not in ('w', 'write', 'o', 'overwrite', 'a', '+', 'append', 'ao', 'oa', 'o+', '+o', 'appendover')
+            if not documented:
+                return {'key': 'valid-list-refused', 'what': where + f": a list the documentation accepts was refused: {o.get('exc')}"}
         if o['raised']:
             # a refused save must leave everything as it was (checked by C18); expectations unchanged
             cur = o['slot']
